@@ -334,11 +334,16 @@ impl<const LIMBS: usize> DivAssign<NonZero<Int<LIMBS>>> for Int<LIMBS> {
 }
 
 impl<const LIMBS: usize> DivVartime for Int<LIMBS> {
+    /// Computes `self / rhs` in variable time.
+    ///
+    /// # Panics
+    /// Panics on overflow, i.e. when dividing [`Int::MIN`] by `-1`: the quotient `-Int::MIN`
+    /// is not representable. Use [`Int::checked_div_vartime`] to detect this case.
     fn div_vartime(&self, rhs: &NonZero<Int<LIMBS>>) -> Self {
         let (q, _r, lhs_sign, rhs_sign) = self.div_rem_base_vartime(rhs);
         let opposing_signs = lhs_sign.xor(rhs_sign);
         let q = Int::new_from_abs_sign(q, opposing_signs);
-        q.expect("int divided by int fits in uint by construction")
+        q.expect("attempted to divide with overflow")
     }
 }
 
